@@ -39,7 +39,7 @@ TCall ==
 TRet ==
   /\ IsEvent("ret")
   /\ TimeOf(Ev.now) = now
-  /\ Ret(Ev.kind, Ev.ho, Ev.out, Ev.he, Ev.err, Ev.text_ok)
+  /\ IF Ev.kind = "oom" THEN RetOom ELSE Ret(Ev.kind, Ev.ho, Ev.out, Ev.he, Ev.err, Ev.text_ok)
   /\ UNCHANGED scn
 
 TCommit ==
